@@ -31,7 +31,7 @@ func init() {
 	rig.Register(&rig.Check{
 		ID:    "C01",
 		Floor: 40,
-		Rule: "case = (feature type T, prior state pristine|after a random prefix of subscribes, binds and data updates, sending peer 0..2); its cells are the request matrix classifier x function x ack (requested, omitted, explicitly false) x destination kind (NodeManagement, server, client, a special-role data feature, unknown in five address forms, foreign device part), walked in a per-case shuffled order, a fifth of the datagrams carrying the cmd twice, a third of the reply/result cells referencing a request of the stack that is really outstanding, half of the data-feature cells dressed in one of six legal cmd envelopes (optional function element naming the payload or empty, partial / delete filter with or without selector or elements), " +
+		Rule: "case = (feature type T, prior state pristine|after a random prefix of subscribes, binds and data updates, sending peer 0..2); its cells are the request matrix classifier x function x ack (requested, omitted, explicitly false) x destination kind (NodeManagement, server, client, a special-role data feature, unknown in five address forms, foreign device part), walked in a per-case shuffled order, a fifth of the datagrams carrying the cmd twice, a third of the reply/result cells referencing a request of the stack that is really outstanding, half of the data-feature cells dressed in one of six legal cmd envelopes (optional function element naming the payload or empty, partial / delete filter with or without selector or elements), five in eight of all requests (all three parts) carrying optional header elements (addressOriginator naming another feature of the sender / the sender's numbers on another connected device / an unknown device / the addressed feature / another local feature / no device part / the source itself; absolute or relative timestamp), " +
 			"enumerated completely in every case of both tiers (quick: two rounds over all feature types, prior states and senders, the second sending from the nested entity [1,1]; thorough: eight rounds with fresh prefixes and payloads). A case is non-trivial if at least one reply, one success result and one error result were observed and judged; " +
 			"distinct = distinct (T, prior state, sender, set of response classes seen). Part local-tree: case = (T, sender, a history of 7 (thorough 12) changes of the local tree: entities added, removed sequentially / inside the destination lookup of an inbound datagram / concurrently with deliveries on all connections, added again under the same address with another role layout and other data, features added after having been asked for in vain), every request kind sent to feature numbers 1..3 of the changed address, of a neighbour and of the stable entity after every change; non-trivial if a reply, a success and an error result were judged and at least one change overlapped a delivery.",
 		Assumptions: []string{
@@ -41,6 +41,7 @@ func init() {
 			"datagrams WITHOUT the request's reference are predicted from harness state on every tap: at most one re-read of the same function (addressed feature -> request source) after a notify answered with an error; at most one notify per reference subscriber of the written feature after an accepted write; at most one subscription call and one use-case read (local NodeManagement -> sender's NodeManagement) after an accepted discovery reply. Anything else is a violation of 'no more' (their presence is other properties' subject and not demanded here)",
 			"a datagram carrying the same cmd twice is one request: exactly one response set, as for the single cmd",
 			"a destination naming another device than the local one (a connected peer's address or an unknown one) is a destination feature that does not exist here: one error result",
+			"the optional header elements addressOriginator and timestamp select neither a row of the statement's table nor an address of a response: a request carrying them gets the response set of the plain request, addressed to addressSource, from addressDestination with the local device address, referencing msgCounter (the originator values are chosen so that any other derivation yields a different address)",
 			"the optional cmd elements function and filter do not select the row of the statement's table: a read of a server or special feature gets its one reply whether the function element is absent, names the payload or is empty (as senders write it next to a partial filter), and an empty update of a list restricted to 'partial' is as acceptable as the bare empty payload; the content of a reply to a read carrying a selector or elements is not compared",
 			"local-tree: a datagram in flight while the application adds or removes the addressed entity may be served by the state before or after the change (exactly one of the two response sets); a datagram sent after the change has returned is judged by the state after it. The window inside the destination lookup is opened through the public api.EntityLocalInterface (an entity embedding *spine.EntityLocal); no verdict depends on the window having been reached",
 			"the heartbeat timer of the DeviceDiagnosis world is stopped by the harness (it would write data and notify at wall-clock times); the expectation for reply content is the harness's own record of SetData calls and accepted full writes, after one JSON round trip",
@@ -214,6 +215,7 @@ type c01Cell struct {
 	two   bool // the datagram carries the cmd twice
 	real  bool // reply/result: the reference is a request of the stack that is really outstanding
 	env   int  // which optional cmd elements (function, filter) accompany the payload: index into c01Envelopes
+	hdr   int  // which optional header elements (addressOriginator, timestamp) the request carries: index into c01HeaderDresses
 }
 
 var c01UnknownForms = []string{"[1]/9 unknown feature", "[9]/1 unknown entity", "[1,9]/1 unknown nested entity", "[1,1]/1 existing feature number under an entity that does not exist", "[0]/9 unknown feature of the device information entity"}
@@ -234,6 +236,9 @@ func (x c01Cell) String() string {
 	}
 	if x.env != 0 {
 		s += " envelope=" + c01Envelopes[x.env]
+	}
+	if x.hdr != 0 {
+		s += " header[" + c01HeaderDresses[x.hdr] + "]"
 	}
 	return s
 }
@@ -401,9 +406,10 @@ func c01Case(c *rig.Ctx) {
 	p := w.Peers[sender]
 
 	// send delivers one datagram carrying cmd once or twice
-	send := func(cl model.CmdClassifierType, src, dst *model.FeatureAddressType, ack, ackf, twice bool, ref *model.MsgCounterType, cmd model.CmdType) model.MsgCounterType {
+	send := func(cl model.CmdClassifierType, src, dst *model.FeatureAddressType, ack, ackf, twice bool, ref *model.MsgCounterType, cmd model.CmdType, hdr int) model.MsgCounterType {
 		mc := p.NextCounter()
 		d := rig.Datagram(cl, src, dst, mc, ack, ref, cmd)
+		c01DressHeader(w, p, &d, hdr)
 		if !ack && ackf {
 			d.Datagram.Header.AckRequest = util.Ptr(false)
 		}
@@ -676,7 +682,9 @@ func c01Case(c *rig.Ctx) {
 			nd.Device = nil
 			dst = &nd
 		}
-		mc := send(cell.cl, src, dst, cell.ack, cell.ackf, cell.two, ref, cmd)
+		// the optional header elements: they select no row of the table and no address of a response
+		cell.hdr = c01PickHeaderDress(r)
+		mc := send(cell.cl, src, dst, cell.ack, cell.ackf, cell.two, ref, cmd, cell.hdr)
 		c.Events(1)
 		id := fmt.Sprintf("T=%s prefixed=%v peer=%d srcEntity=%v :: %s", T, prefixed, sender, srcEnt, cell)
 		if n := p.PanicCount(); n > 0 {
@@ -718,6 +726,11 @@ func c01Case(c *rig.Ctx) {
 		classesSeen[class] = true
 		c.Count("class:"+class, 1)
 		c.Count("envelope:"+c01Envelopes[cell.env], 1)
+		c.Count("header:"+c01HeaderDresses[cell.hdr], 1)
+		if cell.hdr != 0 && len(res.All) > 0 {
+			c.Count("header-dressed-request-answered:"+string(cell.cl)+"/"+cell.dest, 1)
+			c.Count("responses-to-header-dressed-requests-judged", int64(len(res.All)))
+		}
 		if cell.env != 0 {
 			c.Count("envelope-by-classifier:"+string(cell.cl)+":"+c01Envelopes[cell.env], 1)
 		}
@@ -795,7 +808,7 @@ func c01Case(c *rig.Ctx) {
 				delete(cw.unknownRec, "srv|"+string(fn))
 			}
 			// and a read right after it returns exactly that
-			mc3 := send(model.CmdClassifierTypeRead, src, srvAddr, false, false, false, nil, rig.CmdFor(fn, reflect.New(cell.fn.T).Interface()))
+			mc3 := send(model.CmdClassifierTypeRead, src, srvAddr, false, false, false, nil, rig.CmdFor(fn, reflect.New(cell.fn.T).Interface()), c01PickHeaderDress(r))
 			id3 := id + " (read after the accepted write)"
 			res3 := collect(id3, model.CmdClassifierTypeRead, mc3, nil, true)
 			c.Events(1 + int64(len(res3.All)))
@@ -811,7 +824,7 @@ func c01Case(c *rig.Ctx) {
 		if class == "write-authorised(count)" {
 			if li := rig.ListByFn(fn); li != nil && len(li.Keys) > 0 && li.AllUint {
 				u := rig.Update{Kind: "partial", SelKey: -1, DelSel: -1, Items: []reflect.Value{li.NewItem(r, 1000+r.Intn(9))}}
-				mc2 := send(model.CmdClassifierTypeWrite, src, dst, cell.ack, false, false, nil, li.Cmd(u))
+				mc2 := send(model.CmdClassifierTypeWrite, src, dst, cell.ack, false, false, nil, li.Cmd(u), c01PickHeaderDress(r))
 				id2 := id + " (then a partial write of an identifier the list does not hold)"
 				res2 := collect(id2, model.CmdClassifierTypeWrite, mc2, nil, true)
 				c.Events(1 + int64(len(res2.All)))
